@@ -140,7 +140,13 @@ namespace sim
 			return;
 		}
 
-		int num_methods = unsigned(m_out_buffer[1]);
+		int num_methods = std::uint8_t(m_out_buffer[1]);
+		if (num_methods == 0)
+		{
+			std::printf("socks_connection::on_handshake1: no authentication methods offered\n");
+			close_connection();
+			return;
+		}
 
 		// read list of auth-methods
 		asio::async_read(m_client_connection, asio::buffer(&m_out_buffer[0],
